@@ -81,3 +81,13 @@ package util
 //@   ensures [length] len(b.buf) - b.off == (len(old(b.buf)) - old(b.off)) + n
 //@   ensures [tail] samebase(result, b.buf[len(b.buf) - n:])
 //@   ensures [content] forall k int :: 0 <= k && k < len(old(b.buf)) - old(b.off) ==> b.buf[b.off + k] == old(b.buf)[old(b.off) + k]
+
+// BufferPool.Get(n) returns n bytes (from the pool or freshly made); Put gives a buffer back.
+//@ func (*BufferPool).Get
+//@   trusted
+//@   nilrecv ok
+//@   ensures len(result) == n
+//@   modifies nothing
+//@ func (*BufferPool).Put
+//@   trusted
+//@   modifies nothing
